@@ -1,4 +1,5 @@
 import Bw.Pipeline
+import Bw.Lemmas.TreeWalk
 import Bw.Lemmas.NormShape
 /-! # C03 — blocks are exactly the tag pairs written in comments
 
@@ -204,5 +205,22 @@ example : ∃ (o1 o2 : Open) (c : Comment), Dyck [.start o1, .start o2, .stop c 
   have h := Dyck.wrap ⟨default, 0, [], default, default⟩ default 3 0
     (Dyck.wrap ⟨default, 1, [], default, default⟩ default 2 0 Dyck.nil)
   simpa using h
+
+/-! ### the depth-first walk of the syntax tree (`CommentsIterator`, model `Bw.TreeWalk`) -/
+
+/-- **the cursor walk yields every node of the tree exactly once, in document order** - whatever the shape of the tree
+    (any depth, any number of children): no subtree is skipped, no node is visited twice, and `size t` calls of `next()`
+    exhaust the tree (the walk terminates) -/
+theorem walk_document_order {α : Type} (t : TreeWalk.Tree α) : TreeWalk.walk t = TreeWalk.preorder t :=
+  TreeWalk.walk_eq_preorder t
+
+/-- from any cursor position the loop yields exactly what lies after it in document order -/
+theorem walk_resumes_in_document_order {α : Type} (fuel : Nat) (st : List (List (TreeWalk.Tree α)))
+    (h : TreeWalk.stackSize st ≤ fuel) : TreeWalk.walkFrom fuel st = TreeWalk.stackOrder st :=
+  TreeWalk.walkFrom_eq fuel st h
+
+/-- non-vacuity: a comment nested three levels deep after a childless sibling is reached -/
+example : TreeWalk.walk (.node "root" [.node "a" [], .node "b" [.node "string" [.node "interp" [.node "comment" []]]], .node "c" []])
+    = ["root", "a", "b", "string", "interp", "comment", "c"] := by decide
 
 end Bw.Props.C03
